@@ -71,6 +71,25 @@ def ordered(c, q):
     return [(tuple(int(z) for z in m.atomic_numbers), tuple(float(x) for x in wrap01(f, 4))) for m, f in zip(mols, frac)]
 
 
+def synthetic_disorder():
+    """P1 (a single operation), explicit occupancies, two half-occupied sites on the same position"""
+    from chmpy.core.element import Element
+    from chmpy.crystal import AsymmetricUnit, Crystal, SpaceGroup, UnitCell
+    uc = UnitCell.from_lengths_and_angles([7.0, 8.0, 9.0], [math.radians(85), math.radians(100), math.radians(95)])
+    pos = np.array([[0.2, 0.3, 0.4], [0.2, 0.3, 0.4], [0.6, 0.1, 0.8], [0.75, 0.6, 0.2]])
+    asym = AsymmetricUnit([Element[8], Element[7], Element[6], Element[1]], pos, labels=["O1", "N1", "C1", "H1"],
+                          occupation=np.array([0.5, 0.5, 1.0, 1.0]))
+    return Crystal(uc, SpaceGroup(1), asym, titl="disorder")
+
+
+def load_modern_tags():
+    """r3c_example.cif with the symmetry loop spelled with the current dictionary tags"""
+    from chmpy.crystal import Crystal
+    text = (core.SRC / "tests" / "test_files" / "r3c_example.cif").read_text()
+    text = text.replace("_symmetry_equiv_pos_as_xyz", "_space_group_symop_operation_xyz").replace("_symmetry_equiv_pos_site_id", "_space_group_symop_id")
+    return Crystal.from_cif_string(text)
+
+
 def load(name):
     from chmpy.crystal import Crystal
     return Crystal.load(str(core.SRC / "tests" / "test_files" / name))
@@ -115,8 +134,10 @@ def canon(c, q):
 
 
 def base_key(c):
+    occ = c.asymmetric_unit.properties.get("occupation", None)
     return (c.space_group.international_tables_number, c.space_group.choice, tuple(rnd(c.unit_cell.lengths, 6)),
-            tuple(rnd(c.unit_cell.angles, 6)), tuple(map(tuple, rnd(c.asymmetric_unit.positions, 6))))
+            tuple(rnd(c.unit_cell.angles, 6)), tuple(map(tuple, rnd(c.asymmetric_unit.positions, 6))),
+            tuple(int(z) for z in c.asymmetric_unit.atomic_numbers), tuple(rnd(occ, 6)) if occ is not None else None)
 
 
 def fresh_of(c):
@@ -228,6 +249,12 @@ def _all(ctx, budget):
     plans = [(synthetic, "synthetic R-3", histories(ctx, 3 if budget == "quick" else 4, 150 if budget == "quick" else 1500, QUERIES[:6]))]
     mq = ["unit_cell_molecules", "symmetry_unique_molecules", "unit_cell_atoms"]
     plans.append((synthetic_split, "synthetic R-3, asymmetric unit split over two molecules", histories(ctx, 3, 40 if budget == "quick" else 400, mq)))
+    plans.append((synthetic_disorder, "P1 with two half-occupied sites on one position",
+                  [(("q", "unit_cell_atoms"), ("q", "unit_cell_atoms"), ("q", "to_cif_string")), (("q", "density"), ("copy", None), ("q", "unit_cell_atoms")),
+                   (("q", "to_cif_string"), ("q", "unit_cell_atoms"), ("q", "to_cif_string"))]))
+    plans.append((load_modern_tags, "r3c_example.cif with _space_group_symop_* tags",
+                  [(("q", "to_cif_string"), ("sw", "R"), ("q", "to_cif_string"), ("q", "unit_cell_atoms")),
+                   (("sw", "R"), ("q", "to_cif_string"), ("sw", "H"), ("q", "to_cif_string"))]))
     if budget != "quick":
         plans.append((lambda: load("r3c_example.cif"), "r3c_example.cif", histories(ctx, 2, 40, ["unit_cell_atoms", "density", "to_cif_string", "atoms_in_radius"])))
         plans.append((lambda: load("acetic_acid.cif"), "acetic_acid.cif", histories(ctx, 2, 60, QUERIES)))
